@@ -8,6 +8,9 @@ pub mod reconcile;
 pub mod plan;
 #[path = "../repo/src/bin/copia/wire.rs"]
 pub mod wire;
+/// private functions, extracted mechanically on every run (see kani/extracted.tmpl.rs)
+#[path = "extracted.rs"]
+pub mod extracted;
 
 #[cfg(kani)]
 mod harness {
